@@ -69,6 +69,12 @@ def main(argv):
             index.append(sh)
         results = tlc.run_shards("Accept", CFG, envs, jobs=args.jobs, workers=1, timeout=3000)
         tlc.require_ok(results, "Accept")
+        # conformance (E2-ii): every primitive of every recorded behaviour against the Impl transcription
+        from . import tracefam
+
+        conf = tracefam.run_traces(tracefam.trace_inputs(args.tier, args.seed) if not args.replay else inputs, "drift", d, args.jobs)
+        for x in conf["drift"]:
+            rep.add_drift(x)
     finally:
         tlc.cleanup(d)
     states = gen = 0
@@ -103,6 +109,7 @@ def main(argv):
                 "TLC (NeverFails, Terminates with a 30 s cap re-tried at 60 s, Completes); non-trivial = restructuring added >=2 blocks/regions",
         "exhaustive": True, "exhaustive_scope": "closed CFGs with <=5 nodes",
         "inputs_by_domain": bydom, "excluded_inputs": excluded,
+        "conformance": {"behaviours": conf["behaviours"], "primitive_events": conf["events"], "drifting_events": len(conf["drift"]), "tlc_states": conf["states"]},
         "samples": [s["id"] for s in nt[:2]] + [s["id"] for s in nt[-2:]],
     })
     rep.assumptions += ["front-end graphs outside the closed-CFG domain are excluded (counted in excluded_inputs) - see DESIGN section 9",
